@@ -162,6 +162,11 @@ def order(
                     dependents[dep].remove(leaf)
                     if not dependents[dep]:
                         leaf_nodes.add(dep)
+                if leaf in requires_data_task:
+                    # Data nodes that were detached from this alias still need
+                    # a priority. Hand them to a node that stays in the graph
+                    heir = next(iter(dependencies[leaf]))
+                    requires_data_task[heir] |= requires_data_task.pop(leaf)
                 del dsk[leaf]
                 del dependencies[leaf]
                 del dependents[leaf]
